@@ -295,7 +295,9 @@ func describe(c pipeCase) interface{} {
 func TestPipeline(t *testing.T) {
 	rapid.Check(t, func(t *rapid.T) {
 		c := genPipe(t)
+		vh.CurrentCase(prop, "pipeline", c)
 		inf, v := checkPipe(c)
+		vh.ClearCurrentCase()
 		if v != nil {
 			vh.Fail(t, vh.Failure{Property: prop, Part: "pipeline", Signature: v.sig, Message: v.msg, Case: c})
 		}
